@@ -476,27 +476,40 @@ def C11.check (s : Step) : List String :=
     let p' := pos s.post v s.sender
     let D := s.pre.engine.cfg.decimals
     let cum := (Engine.latestCum s.pre.engine v).toInt
-    -- an absent record takes its direction from the order; a stored one (even of size 0) keeps its own
-    let sameSide := !hasPos s.pre v s.sender || (p.direction == sideToDirection side)
+    -- the engine's own case distinction (`open_position`): an absent record and a stored record of size zero
+    -- are flat — the order opens / increases; otherwise an order on the position's side increases it, an
+    -- order on the other side reduces it while the position is worth more than the order and reverses it
+    -- (closing it first) when it is not
+    let flat := !hasPos s.pre v s.sender || p.size.isZero
+    let sameSide := flat || (p.direction == sideToDirection side)
+    let N := margin * lev / D
+    let reduces : Bool := match Engine.positionNotionalPnl (preAt s).q s.pre.engine p .spot with
+      | .ok r => decide (r.1 > N)
+      | .error _ => false
     if sameSide then
       -- open / increase: margin grows by ⌊N·D/L⌋ minus the funding owed; checkpoint moves
-      let N := margin * lev / D
       let want := (p.margin : Int) + (N * D / lev : Nat) - fundingOwed s.pre p
       chk (p'.chk.toInt == cum) "checkpoint-not-moved-on-trade" ++
       chk ((p'.margin : Int) == (if want < 0 then 0 else want)) "funding-not-charged-on-increase"
-    else if !p'.size.isZero && p'.direction == p.direction then
-      -- reduce: realised pnl share, minus funding
+    else if reduces then
+      -- reduce: realised pnl share, minus funding; the record stays (even if rounding takes the size to 0)
       chk (p'.chk.toInt == cum) "checkpoint-not-moved-on-trade"
-    else if p'.size.isZero then
-      -- closed by a reversal of equal size: the trader is due margin + pnl − funding
-      let out : Int := quoteMoved s v
-      let pnl : Int := match p.direction with
-        | .addToAmm => out - p.notional
-        | .removeFromAmm => (p.notional : Int) - out
-      let equity := (p.margin : Int) + pnl - fundingOwed s.pre p
-      chk (equity < 0 || flow s.xfers ENGINE s.sender == equity) "funding-skipped-when-closing-by-reversal"
     else
-      chk (p'.chk.toInt == cum) "checkpoint-not-moved-on-trade"
+      -- reversal: the position is closed whole for `outClose`; what is left of the order re-opens on the
+      -- other side unless it is worth less than one unit of margin (`(N − outClose) / leverage = 0`)
+      let outClose : Nat := match s.pre.vamm? v with
+        | some x => (match Vamm.queryOutputAmount x p.direction p.size.value with | .ok o => o | .error _ => 0)
+        | none => 0
+      let rest := if N > outClose then N - outClose else outClose - N
+      if rest / lev == 0 then
+        -- closed by a reversal that re-opens nothing: the trader is due margin + pnl − funding
+        let pnl : Int := match p.direction with
+          | .addToAmm => (outClose : Int) - p.notional
+          | .removeFromAmm => (p.notional : Int) - outClose
+        let equity := (p.margin : Int) + pnl - fundingOwed s.pre p
+        chk (equity < 0 || flow s.xfers ENGINE s.sender == equity) "funding-skipped-when-closing-by-reversal"
+      else
+        chk (p'.chk.toInt == cum) "checkpoint-not-moved-on-trade"
   | _ => []
 
 /-! ### C15: per-block price band -/
@@ -602,6 +615,19 @@ def C16.checkLive (s : Step) : List String :=
       "unrestricted-trader-refused-as-restricted"
   | _ => []
 
+/-- C11, per-position clause on `ClosePosition`: a position that remains after a (partial) close was charged
+    its funding and its checkpoint stands at the current cumulative fraction; a position that is gone has
+    nothing left to charge -/
+def C11.checkClose (s : Step) : List String :=
+  if !s.ok then [] else
+  match engineMsg s with
+  | some (.closePosition v _) =>
+    if !hasPos s.post v s.sender then [] else
+    let p' := pos s.post v s.sender
+    if p'.size.isZero then [] else
+    chk (p'.chk.toInt == (Engine.latestCum s.pre.engine v).toInt) "checkpoint-not-moved-on-partial-close"
+  | _ => []
+
 /-- all world checks, tagged by property -/
 def allChecks (s : Step) : List (String × List String) :=
   [("C01", C01.check s), ("C02", C02.check s), ("C03", C03.check s), ("C04", C04.check s),
@@ -609,6 +635,6 @@ def allChecks (s : Step) : List (String × List String) :=
    ("C09", C09.check s), ("C10", C10.check s), ("C11", C11.check s), ("C12", C12.check s),
    ("C14", C14.check s), ("C15", C15.check s), ("C16", C16.check s), ("C17", C17.check s),
    ("C18", C18.check s), ("C20", C20.check s),
-   ("C09", C09.checkLive s), ("C16", C16.checkLive s)]
+   ("C09", C09.checkLive s), ("C16", C16.checkLive s), ("C11", C11.checkClose s)]
 
 end Perp.Spec
